@@ -79,6 +79,9 @@ fn corpus() -> Vec<&'static str> {
         "prog 2 2 0 - neq v0 v1 conde 2 1 eq v0 i1 2 eq v1 i1 neq v0 i2",
         "prog 2 2 0 - infd v0 I 0 3 infd v1 I 0 3 ltefd v0 v1 conde 2 1 eq v0 i2 1 eq v1 i1",
         "prog 2 2 0 - plusz v0 i1 v1 conde 2 1 eq v0 i1 1 eq v1 i1",
+        // C10-m: a CLP(Z) constraint object shared by sibling branches that ground the same operand differently
+        "prog 2 2 0 - timesz v0 i3 v1 conde 2 1 eq v0 i2 1 eq v0 i5",
+        "prog 3 3 0 - timesz v0 v1 v2 conde 2 2 eq v0 i2 eq v1 i3 2 eq v0 i5 eq v1 i3",
         "prog 2 2 0 - conde 2 1 call member 2 v0 cons i1 cons i2 nil 1 call member 2 v0 cons i3 cons i4 nil",
     ]
 }
@@ -114,6 +117,57 @@ pub fn run(seed: u64, thorough: bool, out: &mut Out) {
                 }
             }
         };
+        if r.chance(1, 6) {
+            // ONE constraint object of EVERY kind posted in the shared prefix while its operands are unbound; every branch then
+            // grounds the operands to its own numbers (one unification, or one `==` per operand in a random order).  The object
+            // is `Rc`-shared by the sibling branches: whatever one branch learns about an operand must not reach the others.
+            // (Seeded change C10-m: `timesz` memoised the number an operand walked to in a `OnceCell` of the shared object.)
+            out.stat("shared_constraint_scenarios");
+            let vs: Vec<T> = (0..3).map(T::Var).collect();
+            let kind = r.below(9);
+            let mut body: Vec<PG> = vec![];
+            let fdk = kind >= 2 && kind <= 7;
+            if fdk {
+                // (always: an FD operand without a domain is outside the well-formed programs — `verify_all_bound` panics)
+                for v in &vs {
+                    body.push(PG::InFd(v.clone(), g.domain(&mut r)));
+                }
+            }
+            let (a, b, c) = (vs[0].clone(), vs[1].clone(), vs[2].clone());
+            let cnum = |r: &mut Rng| T::Num(r.range(1, 3) as isize);
+            let arity;
+            body.push(match kind {
+                0 => { arity = 3; PG::PlusZ(a, if r.chance(1, 3) { cnum(&mut r) } else { b }, c) }
+                1 => { arity = 3; PG::TimesZ(a, if r.chance(1, 2) { cnum(&mut r) } else { b }, c) }
+                2 => { arity = 3; PG::PlusFd(a, b, c) }
+                3 => { arity = 3; PG::MinusFd(a, b, c) }
+                4 => { arity = 3; PG::TimesFd(a, b, c) }
+                5 => { arity = 2; PG::LteFd(a, b) }
+                6 => { arity = 2; PG::DiseqFd(a, b) }
+                7 => { arity = 3; PG::DistinctFd(T::list(vs.clone())) }
+                _ => { arity = 2; PG::Neq(T::list(vec![a, b]), T::list(vec![cnum(&mut r), cnum(&mut r)])) }
+            });
+            let k = 2 + r.below(2);
+            let clauses: Vec<Vec<PG>> = (0..k)
+                .map(|_| {
+                    let nums: Vec<T> = (0..arity).map(|_| T::Num(r.range(0, 6) as isize)).collect();
+                    if r.chance(1, 2) {
+                        vec![PG::Eq(T::list(vs[..arity].to_vec()), T::list(nums))]
+                    } else {
+                        let mut eqs: Vec<PG> = (0..arity).filter(|_| r.chance(5, 6)).map(|i| PG::Eq(vs[i].clone(), nums[i].clone())).collect();
+                        for i in (1..eqs.len()).rev() {
+                            let j = r.below(i + 1);
+                            eqs.swap(i, j);
+                        }
+                        if eqs.is_empty() { vec![PG::Succ] } else { eqs }
+                    }
+                })
+                .collect();
+            body.push(PG::Conde(clauses));
+            let p = Prog { nvars: 3, nq: 3, take: 0, body, raw: false };
+            record(&p, out);
+            continue;
+        }
         if fd && r.chance(1, 6) {
             // a distinctfd posted before the disjunction, every branch binds ALL its variables in one unification
             out.stat("fd_distinct_multibinding");
